@@ -144,7 +144,7 @@ def run(tier: str, seed: int) -> int:
             got, need, missing = pair_coverage(sim_fvs)
             if not missing and batches >= (3 if thorough else 1):
                 break
-            if batches >= (10 if thorough else 6):
+            if batches >= 12:
                 raise MachineryError(f'feature pairs never exercised after {n_hist} simulated histories: {missing[:6]}')
         if BUILDER_OPS - set(ops_seen):
             raise MachineryError(f'vacuous: builder actions never taken: {sorted(BUILDER_OPS - set(ops_seen))}')
@@ -206,7 +206,7 @@ def run(tier: str, seed: int) -> int:
         cov['samples'] = samples[:4]
         cov['mismatches'] = len(sigs)
         cov['exhaustive'] = False
-        cov['rule'] = ('all builder histories of length 2 (3 thorough) exhaustively in the model; simulated histories of 4-32 public '
+        cov['rule'] = ('all builder histories of length 2 exhaustively in the model (thorough: over the rich parameter domains); simulated histories of 4-32 public '
                        'API calls replayed until all feasible pairs of 26 optional-block features were seen; seeded random '
                        'documents (up to ~190 calls, displacements of power 1-4 fully populated, Unicode/escape-heavy strings); '
                        'every .vmf under tests/ with preserve_ids on and off, minimal on and off')
